@@ -49,6 +49,24 @@ type c44line struct {
 	Key    string         `json:"key"`
 	Sample map[string]any `json:"sample,omitempty"`
 	Tags   []string       `json:"tags"`
+	Ops    [][]c44opJ     `json:"ops"` // the messages, batch by batch, for ./check C44 --replay
+}
+
+// structured form of one message (replay input/output)
+type c44opJ struct {
+	Rem   bool   `json:"rem"`
+	Id    [3]int `json:"id"`
+	Iface int    `json:"iface"`
+	Up    bool   `json:"up"`
+	Tag   int    `json:"tag"`
+	Ips   []int  `json:"ips"`
+}
+
+func (o c44op) toJ() c44opJ {
+	return c44opJ{Rem: o.rem, Id: [3]int{o.id.o, o.id.w, o.id.e}, Iface: o.ep.iface, Up: o.ep.up, Tag: o.ep.tag, Ips: append([]int{}, o.ep.ips...)}
+}
+func (j c44opJ) toOp() c44op {
+	return c44op{rem: j.Rem, id: c44id{j.Id[0], j.Id[1], j.Id[2]}, ep: c44ep{iface: j.Iface, up: j.Up, tag: j.Tag, ips: j.Ips}}
 }
 
 // ---- identities: the three components are strings ordered like the numbers used in the Coq term.
@@ -497,10 +515,12 @@ func (g *c44gen) scenario(kind int) [][]c44op {
 	}
 }
 
-func c44case(r *c44rng, idx int) c44line {
+func c44case(r *c44rng, idx int, fixed [][]c44op) c44line {
 	g := &c44gen{r: r, live: map[c44id]c44ep{}, tags: map[string]bool{}}
 	stream := "random"
 	switch {
+	case fixed != nil:
+		stream = "replay"
 	case idx%5 == 3:
 		stream = "scenario"
 	case idx%10 == 7:
@@ -510,6 +530,8 @@ func c44case(r *c44rng, idx int) c44line {
 	g.pickIDs(2 + r.intn(3))
 	var batches [][]c44op
 	switch stream {
+	case "replay":
+		batches = fixed
 	case "scenario":
 		k := r.intn(8)
 		g.tags[fmt.Sprintf("scenario:%d", k)] = true
@@ -532,6 +554,7 @@ func c44case(r *c44rng, idx int) c44line {
 	}
 	mg := c44new()
 	var coqB, keyB []string
+	var allOps [][]c44opJ
 	var sample []any
 	panicked := false
 	multi := false
@@ -572,11 +595,14 @@ func c44case(r *c44rng, idx int) c44line {
 			multi = true
 		}
 		var ops, opsT []string
+		opsJ := []c44opJ{}
 		for _, o := range b {
+			opsJ = append(opsJ, o.toJ())
 			mg.send(o)
 			ops = append(ops, o.coq())
 			opsT = append(opsT, o.txt())
 		}
+		allOps = append(allOps, opsJ)
 		p := mg.apply()
 		ob := mg.observe(p)
 		coqB = append(coqB, fmt.Sprintf("([%s], %s)", strings.Join(ops, ";"), ob.coq()))
@@ -603,6 +629,7 @@ func c44case(r *c44rng, idx int) c44line {
 		Key:    strings.Join(keyB, " | "),
 		Sample: map[string]any{"batches": sample},
 		Tags:   tags,
+		Ops:    allOps,
 	}
 }
 
@@ -625,8 +652,31 @@ func TestVerifC44(t *testing.T) {
 	defer f.Close()
 	enc := json.NewEncoder(f)
 	r := &c44rng{s: seed}
+	if rp := os.Getenv("VERIF_C44_REPLAY"); rp != "" {
+		// replay: a JSON file holding [[message,...],...] (the "ops" field of a case line)
+		raw, err := os.ReadFile(rp)
+		if err != nil {
+			t.Fatal(err)
+		}
+		var in [][]c44opJ
+		if err := json.Unmarshal(raw, &in); err != nil {
+			t.Fatal(err)
+		}
+		fixed := [][]c44op{}
+		for _, b := range in {
+			ops := make([]c44op, 0, len(b))
+			for _, j := range b {
+				ops = append(ops, j.toOp())
+			}
+			fixed = append(fixed, ops)
+		}
+		if err := enc.Encode(c44case(r, 0, fixed)); err != nil {
+			t.Fatal(err)
+		}
+		return
+	}
 	for i := 0; i < n; i++ {
-		if err := enc.Encode(c44case(r, i)); err != nil {
+		if err := enc.Encode(c44case(r, i, nil)); err != nil {
 			t.Fatal(err)
 		}
 	}
